@@ -171,6 +171,22 @@ def gaussWeightsG (ofNat : Nat → K) (e : K → K) (s2 : K) (lw order : Nat) : 
 
 end gauss
 
+/-! ### `laplacian_2D` weights -/
+
+section laplacian
+variable {K : Type} [Add K] [Sub K] [Div K] [Neg K]
+
+/-- the 3×3 weights of `laplacian_2D(array, alpha)` in C order, `alpha` already clamped to `[0, 1]`:
+    `ver_hor_weight = (1. - alpha) / (alpha + 1.)`, `diag_weight = alpha / (alpha + 1.)`,
+    `center = -4. / (alpha + 1.)`. -/
+def laplacianWeightsG (ofNat : Nat → K) (alpha : K) : Array K :=
+  let vh := (ofNat 1 - alpha) / (alpha + ofNat 1)
+  let dg := alpha / (alpha + ofNat 1)
+  let ce := (-(ofNat 4)) / (alpha + ofNat 1)
+  #[dg, vh, dg, vh, ce, vh, dg, vh, dg]
+
+end laplacian
+
 /-! ### Float instantiation: dtype casts, Gaussian weights, driver -/
 
 /-- C++ `T(cur)` / numpy `astype` for the value ranges the check uses (results inside the dtype range):
@@ -223,6 +239,12 @@ def gaussianFilterModel (dt : String) (m : Mode) (f : Img Float) (contig : Bool)
   (gaussianFilterG (castTo dt) fIsZero m f fun ax =>
     (gaussWeights (sigmas.getD ax 1.0) (orders.getD ax 0)).map (castTo dt)).data.toList
 
+/-- `alpha = max(0, min(alpha, 1))` as Python evaluates it (`min` / `max` return the first argument
+    unless a later one is strictly smaller / larger) -/
+def clampAlpha (a : Float) : Float :=
+  let y := if 1 < a then 1 else a
+  if 0 < y then y else 0
+
 def modeOf (a : Args) : Mode := (Mode.ofCode (a.nat "mode")).getD .reflect
 
 def handle (a : Args) : String :=
@@ -249,6 +271,10 @@ def handle (a : Args) : String :=
     let xs := fastXs w.size N1
     let vals := out.toList.map fun | some v => castTo dt v | none => 0
     s!"xs={showNats xs} unwritten={(out.toList.filter Option.isNone).length} out={showFloats vals}"
+  | "laplacian" =>
+    -- `laplacian_2D(array, alpha)` = `convolve(array as double, weights(alpha), mode='nearest')`
+    let w := laplacianWeightsG Float.ofNat (clampAlpha ((a.floats "alpha").headD 0.2))
+    s!"spec={showFloats (convolveSpec "f64" .nearest f [3, 3] w)} model={showFloats (convolveModel "f64" .nearest f [3, 3] w)}"
   | "gaussw" =>
     s!"w={showFloats (gaussWeights ((a.floats "sigma").headD 1.0) (a.nat "order")).toList}"
   | "gaussian1d" =>
